@@ -230,6 +230,17 @@ class _Mailbox:
         return self.f(event)
 
 
+class _Inbox:
+    """a callable object with attributes of its own (one of them happens to be called `queue`)"""
+
+    def __init__(self, f):
+        self.f = f
+        self.queue = []         # (its own business: what it was given and has not looked at yet)
+
+    def __call__(self, event):
+        return self.f(event)
+
+
 class ImplWorld:
     """Mirror of `Sismic.World`: slots = real interpreters."""
 
@@ -251,6 +262,7 @@ class ImplWorld:
         self.peek_config = False        # the harness's listener reads `interpreter.configuration` at every meta-event
         self.method_targets = False     # recording callables are bound as methods of otherwise unreferenced objects
         self.pair_mode = False          # (C18) a snapshot that cannot be taken is an observation, not a crash
+        self.prop_ignore = False        # (C09) the ready-made property interpreter ignores contracts too
         self.real = 0
         self.deliveries = None          # when a list: global order in which the recording callables were called
         self.log = Log()
@@ -624,9 +636,20 @@ class ImplWorld:
         target = self._cbfun(k)
         if self.method_targets:
             # the target is a bound method of an object nobody else holds on to: the binding keeps it alive
-            target = _Mailbox(target).deliver
+            target = _Mailbox(target).deliver if (k + i) % 2 == 0 else _Inbox(target)
         l = self.slots[i].bind(target)
         return self._add_listener(i, ('bindcb', k), l)
+
+    def op_bindecho(self, i, k, name):
+        """bind a callable that answers every event it is given by queuing an acknowledgement, which carries its own
+        number, to the very interpreter that sent it (several of them: the answers come in binding order)"""
+        from sismic.model import Event
+        slot = self.slots[i]
+
+        def f(event):
+            slot.queue(Event(name, k=k))
+        l = slot.bind(f)
+        self._add_listener(i, ('bindcb', k), l)
 
     def op_bindmut(self, i, k):
         """bind a recording callable that, having recorded what it was given, writes into the parameters of that
@@ -694,7 +717,12 @@ class ImplWorld:
             from sismic.clock import SimulatedClock
             c0 = SimulatedClock()
             c0.time = self.slots[i].time
-            klass(self.charts[ci], clock=c0)
+            if self.prop_ignore:
+                # (an interpreter that ignores contracts, like all the others of this client)
+                created.append(Interpreter(self.charts[ci], clock=c0, evaluator_klass=make_evaluator(world, j),
+                                           ignore_contract=True))
+            else:
+                klass(self.charts[ci], clock=c0)
             with warnings.catch_warnings():
                 warnings.simplefilter('ignore')
                 l = self.slots[i].bind_property_statechart(created[-1])
@@ -779,6 +807,7 @@ def run_case(case, charts, clock_mover=False):
     w.prop_instance = bool(case.get('prop_instance'))
     w.method_targets = bool(case.get('method_targets'))
     w.pair_mode = bool(case.get('pair'))
+    w.prop_ignore = bool(case.get('prop_ignore'))
     if 'peek_config' in case:
         w.peek_config = bool(case['peek_config'])
     else:
